@@ -636,6 +636,12 @@ def gen_any(g, depth, budget=None, kinds=None):
             # make sure post really reads the transformed arguments (its 2nd parameter)
             dom = want[1] if want[1] != "count" else "pos"
             post = [dom, ["add", post, xf[rng.randrange(len(xf))][0]]]
+        pd = P.get("post_discarded", 0.0)
+        if pd > 0 and want[0] == "F" and rng.random() < pd:
+            # an outer argument that `pre` drops but `post` reads (through `args`)
+            ptypes = list(ptypes) + [["F", "real"]]
+            dom = want[1] if want[1] != "count" else "pos"
+            post = [dom, ["add", post, ["p", len(ptypes) - 1]]]
         return {
             "k": "dimap",
             "inner": inner,
